@@ -118,17 +118,17 @@ type dirPlan struct {
 	writes []int
 	reads  []int // cyclic list of read buffer sizes
 
-	mu        sync.Mutex
-	wDone     bool
-	wErr      string
-	wrote     int
-	rDone     bool
-	rErr      string
-	got       int
-	nReads    int
-	shortest  int
-	mismatch  string
-	hash      []byte
+	mu       sync.Mutex
+	wDone    bool
+	wErr     string
+	wrote    int
+	rDone    bool
+	rErr     string
+	got      int
+	nReads   int
+	shortest int
+	mismatch string
+	hash     []byte
 	// the read issued after the stream is complete: it must stay blocked
 	// (nothing more was written) until the frame-tampering step, if any
 	tailDone bool
